@@ -451,20 +451,40 @@ def _crop(ctx, prog):
             parts = m.args[1]
         elif m.op == "binop" and m.args[0] == "BitAnd":
             parts = (m.args[1], m.args[2])
+        widened = []
         if parts:
-            ns = [norm_cmp(p) for p in parts]
+            ns = []
+            for p in parts:
+                # a bound test OR-ed with something else admits poses the
+                # bound excludes
+                alts = [p]
+                if p.op == "binop" and p.args[0] == "BitOr":
+                    alts = [p.args[1], p.args[2]]
+                elif is_call_to(p, "numpy.logical_or") and \
+                        len(p.args[1]) == 2:
+                    alts = list(p.args[1])
+                cm = [norm_cmp(a) for a in alts]
+                widened += [a for a, c in zip(alts, cm) if c is None and
+                            len(alts) > 1]
+                cm = [c for c in cm if c]
+                ns.append(cm[0] if len(cm) == 1 else None)
             if all(ns):
                 for (a, rel, b) in ns:
                     if b is ts and rel == "LtE":
                         lo = a
                     if a is ts and rel == "LtE":
                         hi = b
-                ok = lo is not None and hi is not None
+                ok = lo is not None and hi is not None and not widened
+    else:
+        widened = []
     ctx.ob("C11.3", red[0], ok,
            "time crop keeps exactly start <= t <= end (both inclusive, "
            "conjunction)" if ok else
-           f"time crop mask is {fmt(ids)} — expected "
-           f"(t >= start) & (t <= end), both inclusive",
+           (f"time crop keeps poses outside [start, end]: the bound tests "
+            f"are widened by {fmt(widened[0])[:90]} — the property keeps "
+            f"exactly the poses with start <= t <= end" if widened else
+            f"time crop mask is {fmt(ids)} — expected "
+            f"(t >= start) & (t <= end), both inclusive"),
            key="C11.3:mask", ids=fmt(ids))
     ok2 = lo is start and hi is end
     ctx.ob("C11.3", red[0], ok2,
@@ -659,7 +679,10 @@ def _splits(ctx, prog):
 def _merge(ctx, prog):
     f = prog.func("evo.core.trajectory.merge")
     ctx.analysed_fn(f.qualname)
-    r = Interp(prog).run(f)
+    from ..lib import extra_defaults
+    extra = extra_defaults(f, f.params[:1])
+    ctx.require(extra is not None, "merge: signature changed")
+    r = Interp(prog).run(f, dict(extra))      # added options at defaults
     ret = r.ret
     ctx.require(ret.op == "call" and tm.callee_name(ret) == TRAJ,
                 f"merge: does not return a PoseTrajectory3D(...) "
@@ -684,8 +707,14 @@ def _merge(ctx, prog):
                 pe = per_element(base.args[1][0])
                 if pe is not None:
                     elt, lid, it_, conds = pe
-                    ok = not conds and it_ is trajs and \
-                        elt is tm.attr(T("elem", trajs, lid), attr)
+                    # (list(trajectories) / tuple(..) hold the same
+                    # trajectories in the same order)
+                    seq = it_.args[1][0] if is_call_to(
+                        it_, "builtins.list", "builtins.tuple") and \
+                        len(it_.args[1]) == 1 else it_
+                    ok = not conds and seq is trajs and elt in (
+                        tm.attr(T("elem", it_, lid), attr),
+                        tm.attr(T("elem", seq, lid), attr))
                     if not ok:
                         why = f"concatenation of {fmt(elt)} over {fmt(it_)}"
         elif v is not None:
